@@ -8,9 +8,18 @@ SPEC = os.path.join(common.VERIF, "spec", "Reader")
 # tokens on whose delimiters slip and the language agree; each is followed by a separator
 POOL = ["abc", "x", "12", "-7", "1.5", "1/2", "nil", "t", ":kw", '"s t"', '"a\\"b"', '"l1\\nl2"', "|x y|", "#\\a", "#\\Space",
         "#xff", "#b101", "#3r12", "#*101", "'q", "`bq", "#'car", "(", ")", "(a . b)", "#(1 2)", "#2A((1 2) (3 4))",
-        "; c\n", "#| blk |#", "()", "(nested (deep (er)))"]
+        "; c\n", "#| blk |#", "()", "(nested (deep (er)))",
+        # numbers whose meaning depends on *read-base* / the default float format, longer radix prefixes
+        "ff", "1f", "10", "-101", "10.", "1e3", "1.5d0", "2.5s0", "1.0f2", "3.25L1", "#16rFF", "#2r-101", "#36rzz", "#o17", "-3/4",
+        # prefixes in front of every kind of datum, nested prefixes, vectors in vectors
+        "'(a b)", "`(a ,b ,@c)", "''x", "#'(lambda (x) x)", "#(1 #(2))", "(quote x)", "(a . (b . c))",
+        # multi-byte code points inside strings, |symbols|, characters and plain symbols
+        '"h\u00e9llo w\u00f6rld"', "|\u00e9 t\u00e9|", "#\\\u00e9", "caf\u00e9", '"\U0001F600 ok"', '"tab\\tin"', "|a\\|b|"]
+BASES = [0, 2, 8, 16, 36]
+FFMTS = ["", "single-float", "double-float", "long-float", "short-float"]
 SEPS = [" ", "\n", "  "]
 STREAM_ENTRIES = ["stream", "push", "each", "stream-one"]
+WHOLE_ENTRIES = ["readone", "rfs", "clseek"]      # entry points that take the whole text
 
 
 def balanced(tokens):
@@ -40,27 +49,60 @@ def texts(rng, n, maxtok):
 
 
 def features(stim):
+    """Constructs for which the implementation has an open finding (exercised as probes, see known-findings.jsonl)."""
     f = set()
-    if stim["entry"] in STREAM_ENTRIES and stim["cuts"]:
-        f.add("chunked-stream")
-    if stim["entry"] in ("readone", "stream-one") and ('"' in stim["text"] or "|" in stim["text"]):
-        f.add("one-form-position-of-string-or-pipe")
+    if stim["entry"] == "rfs" and any(ord(c) > 127 for c in stim["text"]):
+        f.add("read-from-string-position-in-bytes")
+    if stim["entry"] == "clread":
+        f.add("cl-read-on-non-seekable-stream")
     return f
+
+
+def cutsets(rng, n, full):
+    if n < 2:
+        return [[]]
+    cs = [[]]
+    if full:
+        cs += [[c] for c in range(1, n)] + [list(range(k, n, k)) for k in (1, 2, 3, 7) if k < n]
+    else:
+        cs += [[rng.randrange(1, n)]] + [list(range(k, n, k)) for k in (1,)]
+    cs += [sorted(rng.sample(range(1, n), min(n - 1, rng.randint(2, 4)))) for _ in range(3 if full else 1) if n > 3]
+    return cs
 
 
 def run(tier, seed):
     rep = common.Report(PROP, tier, seed)
     vdrive = common.build_harness()
     rng = random.Random(seed)
-    ntexts, maxtok = (300, 4) if tier == "quick" else (5000, 6)
+    ntexts, maxtok = (300, 4) if tier == "quick" else (4000, 6)
     stimuli = []
+
+    def add(text, cuts, entry, base=0, ffmt="", full=""):
+        stimuli.append({"id": len(stimuli) + 1, "text": text, "cuts": cuts, "entry": entry, "base": base, "ffmt": ffmt, "full": full})
+
     for text in texts(rng, ntexts, maxtok):
         n = len(text.encode())
-        cutsets = [[]] + [[c] for c in range(1, n)] + [list(range(k, n, k)) for k in (1, 2, 3, 7) if k < n]
-        cutsets += [sorted(rng.sample(range(1, n), min(n - 1, rng.randint(2, 4)))) for _ in range(3) if n > 3]
-        for cuts in cutsets:
-            for entry in (STREAM_ENTRIES if cuts else STREAM_ENTRIES + ["readone"]):
-                stimuli.append({"id": len(stimuli) + 1, "text": text, "cuts": cuts, "entry": entry})
+        # (a) default settings: every single cut, fixed chunk sizes, random multi-cuts x every stream entry point
+        for cuts in cutsets(rng, n, True):
+            for entry in (STREAM_ENTRIES if cuts else STREAM_ENTRIES + WHOLE_ENTRIES):
+                add(text, cuts, entry)
+        if rng.random() < 0.15:
+            add(text, [], "clread")
+            add(text, [rng.randrange(1, n)] if n > 1 else [], "clread")
+        # (b) two other reader settings, fewer cuts
+        for _ in range(2):
+            base, ffmt = rng.choice(BASES), rng.choice(FFMTS)
+            for cuts in cutsets(rng, n, False):
+                for entry in (STREAM_ENTRIES if cuts else STREAM_ENTRIES + WHOLE_ENTRIES):
+                    add(text, cuts, entry, base, ffmt)
+        # (c) the text stops early: every proper prefix (in code points), whole and with one cut
+        cps = list(text)
+        for k in range(1, len(cps)):
+            pre = "".join(cps[:k])
+            m = len(pre.encode())
+            for cuts in ([[]] + ([[rng.randrange(1, m)]] if m > 1 else [])):
+                for entry in (["stream", "each", "stream-one"] if cuts else ["stream", "push", "readone", "rfs", "clseek"]):
+                    add(pre, cuts, entry, full=text)
     open_feats = {f["feature"]: f for f in common.load_findings(PROP) if f.get("status") == "open"}
     events = pipeline.drive(vdrive, "c02", stimuli, chunk=5000)
     res = pipeline.accept(SPEC, "ReaderTrace", "ReaderTrace.cfg", events, timeout=1500)
@@ -69,8 +111,9 @@ def run(tier, seed):
     for b in res["bad"]:
         s = by_id[b["t"]]
         known = [f for f in features(s) if f in open_feats]
-        if b["why"].startswith("calibration"):
-            raise common.Infra(f"structure layer and one-shot reader disagree on {s['text']!r}: generator outside the sublanguage")
+        # "calibration": a complete text of n forms from the token pool was read as a different number of objects. The pool
+        # is kept to tokens on which the structure layer and the one-shot reader agree on the unchanged tree, so this
+        # is a reading of the text as different objects (reported like any other rejection).
         if known:
             for f in known:
                 hit.setdefault(f, []).append(b)
@@ -81,8 +124,12 @@ def run(tier, seed):
         if feat in hit:
             rep.known.append(f["summary"] + f" ({len(hit[feat])} deliveries)")
     rep.cov.update({"states": res["states"], "transitions": res["lines"], "traces_validated_against_impl": len(stimuli),
-                    "evaluations": len(stimuli), "distinct_nontrivial": len({s["text"] for s in stimuli}),
-                    "rule": f"{ntexts} balanced texts of <= {maxtok} tokens from a {len(POOL)}-token pool x every single cut, chunk sizes 1/2/3/7, "
-                            "3 random multi-cuts x 4 stream entry points (+ repeated ReadOne uncut); distinct = distinct texts",
+                    "evaluations": len(stimuli), "distinct_nontrivial": len({(s["text"], s["base"], s["ffmt"]) for s in stimuli}),
+                    "rule": f"{ntexts} balanced texts of <= {maxtok} tokens from a {len(POOL)}-token pool x (every single cut, chunk sizes 1/2/3/7, "
+                            "random multi-cuts) x 5 stream entry points (+ repeated ReadOne and read-from-string uncut), again under two random "
+                            "(*read-base*, *read-default-float-format*) settings, and every proper prefix of every text (whole and cut once); each "
+                            "event carries the one-shot ReadString result of the same text under the same settings and is judged by the TLA+ "
+                            "acceptor ReaderTrace (delivery independence; form spans from the per-code-point structure machine for positions, "
+                            "incomplete texts and forms before a truncation point); distinct = distinct texts incl. truncations",
                     "samples": stimuli[:2] + stimuli[-1:], "exhaustive": False, "probes": {k: len(v) for k, v in hit.items()}})
     return rep.finish()
